@@ -46,7 +46,8 @@ RULE = ("a case is a configuration: class (plain | external interference), "
         "receive filters, per-user powers 1e-2..1e2, path loss (none | "
         "10**U(-3,1) matrix), noise_var (None | 0 | 1e-4..10), external "
         "sources (1..2, 1..2 antennas) with power pe (default | 0 | "
-        "1e-3..1e2).  Non-trivial = some user has >= 2 streams, or a path "
+        "1e-3..1e2), optionally a second channel object of the same layout "
+        "built and queried first.  Non-trivial = some user has >= 2 streams, or a path "
         "loss is set, or there is external interference with pe > 0; "
         "distinct = SHA-1 of the case description")
 ASSUMPTIONS = [
